@@ -91,6 +91,63 @@ def gen_program(rng, cls, enc, nsec=None, allow_nested=True, explicit_prob=0.35,
     return prog
 
 
+def gen_tls_program(rng, cls, enc, tls_seg):
+    """A writer-domain program with a thread-local DATA section (`.tdata`: SHT_PROGBITS, SHF_WRITE|SHF_ALLOC|SHF_TLS,
+    not empty) among the members of a PT_LOAD - where the TLS initialisation image of every linked program lies -
+    with (`tls_seg`) or without a PT_TLS segment nested over it.  No NOBITS members (no F13 / F14 trigger).
+    gen_program never sets SHF_TLS; these programs are the trigger of finding F17 (load_segments never makes an
+    SHF_TLS section a member of a non-TLS segment)."""
+    prog = gen_program(rng, cls, enc, nsec=0)         # header fields only
+    k = rng.randint(1, 3) if tls_seg else rng.randint(0, 3)      # the nested segment is strictly shorter than its host
+    at = rng.randint(0, k)
+    explicit = tls_seg or rng.random() < 0.4
+    base = 0x400000 + rng.choice([0, 0, 0x1000, 0x234, 0x10])
+    a = base + rng.choice([0, 0, 4, 0x40])
+    for i in range(k + 1):
+        tls = i == at
+        n = rng.choice([1, 3, 8, 11, 16, 24, 33])
+        s = {"name": b".tdata" if tls else rng.choice([b".text", b".data", b".rodata", b".x"]), "type": 1,
+             "flags": 0x403 if tls else 2 | rng.choice([0, 1, 4, 5]), "align": rng.choice([1, 1, 4, 8, 16]),
+             "entsize": 0, "link": 0, "info": 0, "addr": None, "data": rnd_bytes(rng, n), "size": n}
+        if explicit:
+            s["addr"] = a
+            a += n + rng.choice([0, 0, 1, 4, 16, 100])
+        prog["secs"].append(s)
+    if rng.random() < 0.5:
+        prog["secs"].append({"name": b".comment", "type": 1, "flags": 0x30, "align": 1, "entsize": 1, "link": 0, "info": 0,
+                             "addr": None, "data": rnd_bytes(rng, rng.choice([0, 5, 17])), "size": 0})
+        prog["secs"][-1]["size"] = len(prog["secs"][-1]["data"])
+    prog["segs"].append({"type": 1, "flags": rng.choice([6, 7]), "align": rng.choice([0, 16, 0x100, 0x1000, 0x1000]),
+                         "vaddr": base, "paddr": base, "members": [i + 2 for i in range(k + 1)], "explicit": explicit})
+    if tls_seg:
+        t = prog["secs"][at]
+        prog["segs"].append({"type": 7, "flags": 4, "align": rng.choice([1, 4, 8]), "vaddr": t["addr"], "paddr": t["addr"],
+                             "members": [at + 2], "explicit": True, "nested": True})
+        if rng.random() < 0.5:
+            prog["segs"].reverse()
+    return prog
+
+
+def tls_member(prog, img):
+    """an SHF_TLS section that is a member of - or lies (by address if allocated, by file offset otherwise) inside -
+    a segment that is not a PT_TLS: in the construction program `prog` (may be None) or in the saved image `img`.
+    elfio::load_segments never reports such a section as a member of that segment (finding F17)."""
+    if prog is not None:
+        for g in prog["segs"]:
+            if g["type"] != 7 and any(prog["secs"][m - 2]["flags"] & 0x400 for m in g["members"] if 0 <= m - 2 < len(prog["secs"])):
+                return True
+    d = elfspec.decode(img) if img else None
+    if d is None:
+        return False
+    for s in d["sections"]:
+        if (s["sh_flags"] & elfspec.SHF_TLS) and s["sh_type"] != 0:
+            for g in d["segments"]:
+                if g["p_type"] not in (elfspec.PT_TLS, elfspec.PT_NULL) and \
+                        elfspec.in_segment(dict(s, sh_flags=s["sh_flags"] & ~elfspec.SHF_TLS), g, (1 << 64) - 1):
+                    return True
+    return False
+
+
 def f13_trigger(prog):
     """an address-less NOBITS member that may need an alignment gap: the file cursor moves on the
     first save but not on a later one (known finding F13)"""
